@@ -962,7 +962,13 @@ func (fc *FuncCtx) execRange(st *State, x *ast.RangeStmt) flow {
 		fc.havocAssigned(st, x.Body)
 		return flow{next: st}
 	}
-	// names visible to invariants
+	// names visible to invariants (saved and restored: an enclosing loop has its own $i / $n / $seq)
+	savedNames := map[string]Val{}
+	for _, k := range []string{"$n", "$seq", idxName} {
+		if v, ok := st.names[k]; ok {
+			savedNames[k] = v
+		}
+	}
 	st.names["$n"] = Val{T: n, Typ: types.Typ[types.Int]}
 	st.names["$seq"] = rv
 	i0 := IntLit(0)
@@ -1004,6 +1010,15 @@ func (fc *FuncCtx) execRange(st *State, x *ast.RangeStmt) flow {
 	// after the loop the index var (if declared outside with =) — Go 1.22 per-iteration vars: not visible after loop
 	outs := append([]*State{exit}, bf.brk...)
 	out := fc.merge(outs)
+	if out != nil {
+		for _, k := range []string{"$n", "$seq", idxName} {
+			if v, ok := savedNames[k]; ok {
+				out.names[k] = v
+			} else {
+				delete(out.names, k)
+			}
+		}
+	}
 	return flow{next: out}
 }
 
